@@ -815,6 +815,26 @@ impl<B: AsRef<[usize]> + BitLength + SelectHinted, I: AsRef<[usize]>> SelectUnch
 
 impl<B: SelectHinted + AsRef<[usize]> + NumBits, I: AsRef<[usize]>> Select for SelectAdapt<B, I> {}
 
+// Accessors for verification harnesses (compiled only with --cfg sux_verif)
+#[cfg(sux_verif)]
+impl<B, I: AsRef<[usize]>> SelectAdapt<B, I> {
+    /// Returns (inventory, spill, log2_ones_per_inventory, log2_ones_per_sub16,
+    /// log2_u64_per_subinventory).
+    pub fn verif_parts(&self) -> (&[usize], &[usize], usize, usize, usize) {
+        (
+            self.inventory.as_ref(),
+            self.spill.as_ref(),
+            self.log2_ones_per_inventory,
+            self.log2_ones_per_sub16,
+            self.log2_u64_per_subinventory,
+        )
+    }
+    /// Returns the underlying bit vector.
+    pub fn verif_inner(&self) -> &B {
+        &self.bits
+    }
+}
+
 #[cfg(test)]
 mod tests {
     use std::collections::BTreeSet;
